@@ -10,13 +10,13 @@ from props.common import *  # noqa
 from xlcalculator.xlfunctions import date as XD, utils as XU
 
 EXPLANATION = ('The source of utils.number_to_datetime / datetime_to_number and of DATE, DAY, MONTH, YEAR, WEEKDAY, ISOWEEKNUM, DAYS, EDATE, EOMONTH, '
-               'DATEDIF("D") and YEARFRAC (bases 2, 3) is interpreted symbolically (kernel translator); the serial number (and the y/m/d, month-offset, '
+               'DATEDIF ("D", "M", "Y") and YEARFRAC (bases 0, 2, 3, 4; for 0 and 4 also the installed yearfrac package) is interpreted symbolically (kernel translator), methods of the repo\'s own classes (DateTime.__sub__ ...) included; the serial number (and the y/m/d, month-offset, '
                'return-type arguments) are z3 integers/reals. Each obligation is ONE query over every whole serial 1..2958465 (or the stated argument '
                'ranges) at once; unsat = the outcome equals the 1900-system reference for all of them.')
 ASSUMPTIONS = ['library models (kt/models_date.py): datetime = (Gregorian ordinal, seconds of day), timedelta, comparison/subtraction; calendar fields of an ordinal '
                'as uninterpreted functions (equal fields <=> equal ordinals) or fresh (y, m, d) tied to the ordinal by the explicit days-from-civil formula; '
-               'dateutil.relativedelta(years, months, days, day) and rrule(DAILY) by their documented semantics',
-               'outside: DATEDIF units M/Y/MD/YM/YD (dateutil rrule generation), YEARFRAC bases 0/1/4 (yearfrac package), NOW/TODAY (volatile), serial 60 (Excel\'s fictitious 1900-02-29)']
+               'dateutil.relativedelta(years, months, days, day) and rrule(DAILY / MONTHLY / YEARLY: occurrences whose day of month does not exist are skipped; bounded unrolling with an unwinding assertion) by their documented semantics',
+               'outside: DATEDIF units MD/YM/YD (not in the statement), YEARFRAC basis 1 and bases 0/4 on days of month 28-31 (US / European conventions differ), NOW/TODAY (volatile), serial 60 (Excel\'s fictitious 1900-02-29)']
 TRUSTED = ['kt/kt.py interpreter', 'kt/models_date.py', 'reference in props/c18.py']
 
 REF0 = datetime.date(1899, 12, 30).toordinal()
